@@ -42,9 +42,13 @@ func NewInitiator(conn net.Conn, handler InitiatorHandler, bufSize int, writeDea
 }
 
 // Close is used to cancel the specified Initiator context.
+// It also stops the handler: its context is not derived from the Initiator's,
+// and once the connection is gone nothing would release the senders
+// waiting in (or arriving at) the handler's outgoing queue.
 func (c *Initiator) Close() {
 	c.conn.Close()
 	c.cancel()
+	c.handler.Stop()
 }
 
 // Send is used to send a FIX message.
